@@ -83,12 +83,12 @@ Proof. intros H. exists [], false. split; [reflexivity|]. rewrite H. reflexivity
 (* an instruction statement handled through the encoder record *)
 Lemma sized_instr s op ops n b :
   enc_est E (bmode s) op ops = Some n -> enc_kind_ok E op = true ->
-  emitted (OInstr op ops) (loc s - dol) = Some b -> zlen b = n ->
+  emitted (OInstr (bmode s) op ops) (loc s - dol) = Some b -> zlen b = n ->
   - 2 ^ 31 <= loc s + n < 2 ^ 31 ->
-  sized s (push_ocode (add_loc (with_diag s (enc_diag E (bmode s) op ops)) n) (OInstr op ops)).
+  sized s (push_ocode (add_loc (with_diag s (enc_diag E (bmode s) op ops)) n) (OInstr (bmode s) op ops)).
 Proof.
   intros Hest Hk Hem Hn Hr.
-  apply (SzPush _ _ (OInstr op ops) b).
+  apply (SzPush _ _ (OInstr (bmode s) op ops) b).
   - unfold with_diag. destruct (enc_diag E (bmode s) op ops); reflexivity.
   - exact Hem.
   - unfold with_diag. destruct (enc_diag E (bmode s) op ops); cbn [push_ocode add_loc set_loc set_diag loc]; rewrite int32_id by lia; lia.
@@ -142,7 +142,7 @@ Qed.
 (* JMP / Jcc / CALL to a label, 16-bit mode, on the ranges where pass 1's fixed estimate is the emitted length:
    the label's FINAL value (what codegen will look up) lies within the short range of the jump's own address *)
 Lemma sized_branch16 s name op r lbl d :
-  m = M16 -> bmode s = M16 ->
+  bmode s = M16 ->
   eval_top (env_of s) op = Ev (EImm (FId lbl)) r ->
   lookup lbl st = Some d ->
   (name = "JMP"%string /\ -126 <= d - loc s <= 129
@@ -151,23 +151,23 @@ Lemma sized_branch16 s name op r lbl d :
   - 2 ^ 31 <= loc s -> loc s + 3 < 2 ^ 31 ->
   sized E m st dol s (do_jcc s name [op]).
 Proof.
-  intros Hm Hb He Hl Hcase Hlo Hhi. unfold do_jcc. rewrite He. rewrite Hb.
+  intros Hb He Hl Hcase Hlo Hhi. unfold do_jcc. rewrite He. rewrite Hb.
   set (s1 := if sym_has lbl (sym s) then s else set_sym s lbl 0).
   assert (Hs1 : ocodes s1 = ocodes s /\ loc s1 = loc s) by (unfold s1; destruct (sym_has lbl (sym s)); split; reflexivity).
   destruct Hs1 as [Ho1 Hl1].
   assert (Hrel : d - (dol + (loc s - dol)) = d - loc s) by lia.
   destruct Hcase as [[Hn Hr] | [[Hn Hr] | [opc [Hn1 [Hn2 [Hopc Hr]]]]]].
-  - subst name. apply (SzPush E m st dol _ _ (OJcc "JMP" (JLabel lbl)) (gen_jmp M16 (d - loc s))).
+  - subst name. apply (SzPush E m st dol _ _ (OJcc M16 "JMP" (JLabel lbl)) (gen_jmp M16 (d - loc s))).
     + cbn [push_ocode add_loc set_loc ocodes]. rewrite Ho1. reflexivity.
-    + unfold emitted. cbn [gen_ocode]. rewrite Hl, Hrel, Hm. reflexivity.
+    + unfold emitted. cbn [gen_ocode]. rewrite Hl, Hrel. reflexivity.
     + cbn [push_ocode add_loc set_loc loc]. rewrite Hl1, (size_jmp_short16 _ Hr). cbn [estimate_jump String.eqb Ascii.eqb Bool.eqb]. apply int32_id. lia.
-  - subst name. apply (SzPush E m st dol _ _ (OJcc "CALL" (JLabel lbl)) (gen_call M16 (d - loc s))).
+  - subst name. apply (SzPush E m st dol _ _ (OJcc M16 "CALL" (JLabel lbl)) (gen_call M16 (d - loc s))).
     + cbn [push_ocode add_loc set_loc ocodes]. rewrite Ho1. reflexivity.
-    + unfold emitted. cbn [gen_ocode]. rewrite Hl, Hrel, Hm. reflexivity.
+    + unfold emitted. cbn [gen_ocode]. rewrite Hl, Hrel. reflexivity.
     + cbn [push_ocode add_loc set_loc loc]. rewrite Hl1, (size_call16 _ Hr). cbn [estimate_jump String.eqb Ascii.eqb Bool.eqb]. apply int32_id. lia.
-  - apply (SzPush E m st dol _ _ (OJcc name (JLabel lbl)) (gen_jcc M16 opc (d - loc s))).
+  - apply (SzPush E m st dol _ _ (OJcc M16 name (JLabel lbl)) (gen_jcc M16 opc (d - loc s))).
     + cbn [push_ocode add_loc set_loc ocodes]. rewrite Ho1. reflexivity.
-    + unfold emitted. cbn [gen_ocode]. rewrite Hl, Hrel, Hm.
+    + unfold emitted. cbn [gen_ocode]. rewrite Hl, Hrel.
       apply String.eqb_neq in Hn1. apply String.eqb_neq in Hn2. rewrite Hn1, Hn2, Hopc. reflexivity.
     + cbn [push_ocode add_loc set_loc loc]. rewrite Hl1, (size_jcc_short16 opc _ name Hr Hn2).
       assert (He2 : estimate_jump name M16 = 2) by (unfold estimate_jump; apply String.eqb_neq in Hn2; rewrite Hn2; reflexivity).
@@ -176,7 +176,7 @@ Qed.
 
 (* 32-bit mode: EVERY JMP / Jcc / CALL to a label is sized exactly, wherever the label ends up *)
 Lemma sized_branch32 s name op r lbl d :
-  m = M32 -> bmode s = M32 ->
+  bmode s = M32 ->
   eval_top (env_of s) op = Ev (EImm (FId lbl)) r ->
   lookup lbl st = Some d ->
   (name = "JMP"%string \/ name = "CALL"%string
@@ -184,23 +184,23 @@ Lemma sized_branch32 s name op r lbl d :
   - 2 ^ 31 <= loc s -> loc s + 6 < 2 ^ 31 ->
   sized E m st dol s (do_jcc s name [op]).
 Proof.
-  intros Hm Hb He Hl Hcase Hlo Hhi. unfold do_jcc. rewrite He. rewrite Hb.
+  intros Hb He Hl Hcase Hlo Hhi. unfold do_jcc. rewrite He. rewrite Hb.
   set (s1 := if sym_has lbl (sym s) then s else set_sym s lbl 0).
   assert (Hs1 : ocodes s1 = ocodes s /\ loc s1 = loc s) by (unfold s1; destruct (sym_has lbl (sym s)); split; reflexivity).
   destruct Hs1 as [Ho1 Hl1].
   assert (Hrel : d - (dol + (loc s - dol)) = d - loc s) by lia.
   destruct Hcase as [Hn | [Hn | [opc [Hn1 [Hn2 Hopc]]]]].
-  - subst name. apply (SzPush E m st dol _ _ (OJcc "JMP" (JLabel lbl)) (gen_jmp M32 (d - loc s))).
+  - subst name. apply (SzPush E m st dol _ _ (OJcc M32 "JMP" (JLabel lbl)) (gen_jmp M32 (d - loc s))).
     + cbn [push_ocode add_loc set_loc ocodes]. rewrite Ho1. reflexivity.
-    + unfold emitted. cbn [gen_ocode]. rewrite Hl, Hrel, Hm. reflexivity.
+    + unfold emitted. cbn [gen_ocode]. rewrite Hl, Hrel. reflexivity.
     + cbn [push_ocode add_loc set_loc loc]. rewrite Hl1, size_jmp32. cbn [estimate_jump String.eqb Ascii.eqb Bool.eqb orb]. apply int32_id. lia.
-  - subst name. apply (SzPush E m st dol _ _ (OJcc "CALL" (JLabel lbl)) (gen_call M32 (d - loc s))).
+  - subst name. apply (SzPush E m st dol _ _ (OJcc M32 "CALL" (JLabel lbl)) (gen_call M32 (d - loc s))).
     + cbn [push_ocode add_loc set_loc ocodes]. rewrite Ho1. reflexivity.
-    + unfold emitted. cbn [gen_ocode]. rewrite Hl, Hrel, Hm. reflexivity.
+    + unfold emitted. cbn [gen_ocode]. rewrite Hl, Hrel. reflexivity.
     + cbn [push_ocode add_loc set_loc loc]. rewrite Hl1, size_call32. cbn [estimate_jump String.eqb Ascii.eqb Bool.eqb orb]. apply int32_id. lia.
-  - apply (SzPush E m st dol _ _ (OJcc name (JLabel lbl)) (gen_jcc M32 opc (d - loc s))).
+  - apply (SzPush E m st dol _ _ (OJcc M32 name (JLabel lbl)) (gen_jcc M32 opc (d - loc s))).
     + cbn [push_ocode add_loc set_loc ocodes]. rewrite Ho1. reflexivity.
-    + unfold emitted. cbn [gen_ocode]. rewrite Hl, Hrel, Hm.
+    + unfold emitted. cbn [gen_ocode]. rewrite Hl, Hrel.
       apply String.eqb_neq in Hn1. apply String.eqb_neq in Hn2. rewrite Hn1, Hn2, Hopc. reflexivity.
     + cbn [push_ocode add_loc set_loc loc]. rewrite Hl1, (size_jcc32 opc _ name Hn1 Hn2).
       assert (He2 : estimate_jump name M32 = 6).
